@@ -2,12 +2,14 @@
 
 Leg M   : TLC enumerates small bags of metric records (focus metric x normal bag x warm-up records x records of
           other tasks / metrics / operation types), arithmetic-progression stores whose size is a parameter
-          (1, 2, 9, 10, 99, 100, ... around every threshold of percentiles_for_sample_size) and result documents
+          (1, 2, 9, 10, 99, 100, ... around every threshold of percentiles_for_sample_size), with and without a heavy
+          tail of outliers (unequal neighbours at the p99.9 / p99.99 ranks of >= 1000 samples), and result documents
           (every system metric absent / null / 0 / positive) and checks the clauses of C08 on the transcription of
           esrally.metrics (Stats.tla).  Self-test: the pinned summary_stats (truthiness test) violates the property.
 Leg S2C : every TLC state (dump) is loaded into a REAL InMemoryMetricsStore through put_value_cluster_level, the
           results are computed with the real calculate_results (GlobalStatsCalculator), written with the real
-          FileRaceStore.store_race into a scratch race directory and read back through find_by_race_id and list();
+          FileRaceStore.store_race into a scratch race directory and read back through find_by_race_id and list(),
+          per task through GlobalStats.metrics(task) as compare does (operation names collide with task names);
           the same store without its warm-up records is evaluated as well and the getters are asked directly for
           the percentiles 0, 50, 90, 99, 99.9, 99.99, 100.
 Leg C2S : the recorded (store, results, normal-only results, reloaded results) of the S2C runs and of seeded random
@@ -523,13 +525,13 @@ def _sig(item, clauses):
     sig = {"kind": item["kind"], "clauses": sorted(clauses)}
     if item["kind"] == "store":
         zero = False
-        for n, (name, _) in enumerate(item["sched"]):
+        for n, (name, *_) in enumerate(item["sched"]):
             vals = sorted(r[4] for r in item["S"]["recs"] if r[0] == "tp" and r[1] == name and r[2] and r[3])
             ap = item["S"]["ap"]
             if ap[2] > 0 and ap[0] == "tp" and ap[1] == name:
-                vals = sorted(vals + [ap[3] + i * ap[4] for i in range(min(ap[2], 3))] + ([ap[3] + (ap[2] // 2) * ap[4]] if ap[2] > 3 else []))
-                mean0 = ap[3] == 0 and ap[4] == 0
-                med0 = ap[3] + ((ap[2] - 1) // 2) * ap[4] == 0 and (ap[2] % 2 == 1 or ap[3] + (ap[2] // 2) * ap[4] == 0)
+                at = lambda i: ap[3] + i * ap[4] + ((i - (ap[2] - ap[6]) + 1) * ap[7] if i >= ap[2] - ap[6] else 0)
+                mean0 = at(ap[2] - 1) == 0  # values are non-negative and non-decreasing
+                med0 = at((ap[2] - 1) // 2) + at(ap[2] // 2) == 0
             elif vals:
                 mean0 = sum(vals) == 0
                 k = len(vals)
@@ -574,8 +576,8 @@ def _validate(out, items, name):
 
 def run(ctx, out):
     out.rule = (
-        "case = (schedule, multiset of metric records [metric, task, operation type own/other, sample type, value, success, "
-        "relative time] incl. an optional arithmetic progression of n records, unit scale) or a result document; distinct by "
+        "case = (schedule [task, include-in-reporting, operation name], multiset of metric records [metric, task, operation type own/other, sample type, value, success, "
+        "relative time] incl. an optional arithmetic progression of n records with a heavy tail of outliers, unit scale) or a result document; distinct by "
         "hash; non-trivial = at least one normal record of a task metric (stores) / at least one key present (documents). "
         "Sources: every state of the TLC state space of Stats.tla (S2C, exhaustive over the bounded inputs), seeded random "
         "stores with up to 3 tasks, values up to 10^4 and bags up to 260 / progressions up to 12000 records (C2S only)."
@@ -590,8 +592,14 @@ def run(ctx, out):
         "checked for conformance with the transcription (L2) and for the round trip",
         "clauses about one (task, metric) are stated where 'the requests of the task' is unambiguous: no normal record of that "
         "task with another operation type (dependent timings of composite operations); those are covered by L2 only",
-        "error rate with no normal service_time record (0.0) and the exact thresholds 1/10/100/1000/10000 are L2 (the statement "
-        "only requires the percentile set to be a function of the sample count, which is also checked across all cases)",
+        "every reported percentile (tables, throughput median, direct getter answers) must be the linear-interpolation value "
+        "(rank p/100*(n-1), interpolation between the neighbouring sorted values) up to the float tolerance above: L1 clause "
+        "PctLinearInterpolation; which percentiles are reported for which n (thresholds 1/10/100/1000/10000) and the error rate "
+        "with no normal service_time record (0.0) are L2 (the statement only requires the percentile set to be a function of the "
+        "sample count, which is also checked across all cases)",
+        "the results calculate_results returned are read per task as the summary report does (entry of op_metrics whose task is "
+        "the task); the results read back from race.json are read per task through GlobalStats.metrics(task) as compare does; "
+        "RoundTrip demands that both agree for every task of the schedule, also when an operation is named like another task",
         "system metrics (telemetry) are represented by indexing_total_time, node_total_young_gen_gc_time (sums), "
         "segments_memory_in_bytes (median), segments_count (int of median) and are never of warm-up type; all other result keys "
         "take part only in the == comparison of original and reloaded results",
@@ -617,12 +625,13 @@ def run(ctx, out):
     impl = Impl(tlc.scratch("c08impl"))
     inputs = dump_inputs(dump + ".dump" if os.path.exists(dump + ".dump") else dump)
     inputs.sort(key=repr)
-    sched2 = [["t1", True], ["t2", False]]
+    base2 = [["t1", True], ["t2", False]]  # as Sched2 of MC_Stats.tla; the operation names vary from case to case
     items = []
     kinds = {"store": 0, "ap": 0, "doc": 0}
     for n, inp in enumerate(inputs):
         if inp["kind"] == "store":
             S = {"recs": [list(r) for r in inp["S"]["recs"]], "ap": list(inp["S"]["ap"])}
+            sched2 = with_op_names(base2, (0, 1, 0, 2)[n % 4])
             it = {"id": "s%d" % n, "kind": "store", "sched": sched2, "S": S, "u": rnd.choice(SCALES)}
             if n % 4 == 0:
                 it["tele"] = n % 3
@@ -637,7 +646,7 @@ def run(ctx, out):
             out.add_case(("doc", it["doc"]), nontrivial=bool(doc["has"]) or doc["hasOps"])
         items.append(it)
     out.exhaustive = True
-    out.note("leg S2C: %d TLC states executed on the real metrics code (%s)" % (len(items), kinds))
+    out.note("leg S2C: %d TLC states executed on the real metrics code (%s); operation names: next task's name / shared / own" % (len(items), kinds))
     for it in (items[len(items) // 3], next(i for i in items if i["kind"] == "store" and i["S"]["ap"][2] >= 100)):
         out.sample({"sched": it.get("sched"), "store": it.get("S"), "unit_scale": it["u"], "results_task1": it["R"]["ops"][0] if it["R"]["ops"] else None, "reload_diff": it["diff"]})
     # ---- seeded random stores, not derived from the model
@@ -652,7 +661,7 @@ def run(ctx, out):
             it["tele"] = n % 5
         impl.run_store(it, rnd)
         rnd_items.append(it)
-        out.add_case(("store", it["sched"], sorted(it["S"]["recs"], key=repr), it["S"]["ap"]), nontrivial=any(_n_normal(it["S"], m, t) for m in TASK_METRICS for t, _ in it["sched"]))
+        out.add_case(("store", it["sched"], sorted(it["S"]["recs"], key=repr), it["S"]["ap"]), nontrivial=any(_n_normal(it["S"], m, t) for m in TASK_METRICS for t, *_ in it["sched"]))
     out.note("random stores executed: %d" % len(rnd_items))
     out.sample({"random": {"sched": rnd_items[1]["sched"], "n_records": len(rnd_items[1]["S"]["recs"]), "ap": rnd_items[1]["S"]["ap"], "results_task1": rnd_items[1]["R"]["ops"][0]}})
     # ---- leg C2S
